@@ -19,6 +19,7 @@ KINDS = {
     "gcases": ("net/http Response.Write (modelled) behind the real flush writer", "-"),
     "ecases": ("end to end through forwarder.NewHTTPProxy: bytes at the raw client", "client parser consumes exactly the k-th response; body/headers/trailers intact"),
     "tcases": ("end to end delivery times", "event/chunk visible before the origin sends the next byte"),
+    "lcases": ("-", "with --log-http body, a slowly read large response and concurrent exchanges keep their own body bytes (logging must not alter messages)"),
     "xcases": ("- (http.Handler variant of the proxy, oracle only)", "client parser consumes exactly the k-th response; body/headers/trailers intact"),
     "ycases": ("-", "-"),
 }
@@ -56,6 +57,8 @@ def classify(kind, case):
         return "flush-not-at-pattern-boundary"
     if kind == "scases":
         return "header-only-classification"
+    if kind == "lcases":
+        return ("handler-" if c.get("Handler") else "") + "body-logging-alters-message"
     if kind == "wcases":
         return "handler-hands-wrong-data-to-the-server"
     pre = "handler-" if kind == "xcases" else ""
@@ -63,7 +66,8 @@ def classify(kind, case):
         return "handler-304-content-type-dropped"
     why = {2: "status-or-reason-phrase-changed", 3: "end-to-end-field-missing-or-changed", 4: "hop-by-hop-field-reaches-client",
            5: "body-differs", 6: "declared-trailers-differ",
-           7: "connection-kept-after-aborted-response", 8: "connection-closed-without-cause"}.get(case.get("why"))
+           7: "connection-kept-after-aborted-response", 8: "connection-closed-without-cause",
+           9: "response-header-rule-not-applied"}.get(case.get("why"))
     if why:
         return pre + why
     if kind == "xcases" and case.get("only304ct"):
@@ -88,8 +92,30 @@ def classify(kind, case):
     return kind
 
 
+def _coqc_with_g16(ctx):
+    """Check.v imports G16.Model (C16's model of the header rules, read-only): every coqc call needs -Q ../g16 G16."""
+    lib = os.path.join(common.VERIF, "coq", "lib")
+    g16 = os.path.join(common.VERIF, "coq", "g16")
+    g02 = os.path.join(common.VERIF, "coq", GROUP)
+
+    def coqc(group, vfile, cwd=None, timeout=600):
+        return common.sh(["coqc", "-Q", lib, "FwdLib", "-Q", g16, "G16", "-Q", g02, "G02", vfile], cwd=cwd or g02, timeout=timeout)
+    ctx.coqc = coqc
+
+
 def run(ctx):
+    # g02's checkers import G16.Model: hold g16's lock for the whole run so that a C16 check (which regenerates and
+    # rebuilds g16) cannot interleave with the g02 build or the shard evaluation (same order as C01/C18: own group, then g16)
+    with common.Lock("group-g16"):
+        _coqc_with_g16(ctx)
+        ok16, log16, failed16 = ctx.coq_make("g16")
+        _run(ctx, None if ok16 else "coq/g16 (imported read-only) does not build: %s" % log16[-400:])
+
+
+def _run(ctx, g16_problem):
     ob_failed = []
+    if g16_problem:
+        ob_failed.append(g16_problem)
     ok, msg = ctx.tables(GROUP)
     if not ok:
         ctx.log("tables:", msg)
@@ -213,7 +239,7 @@ def run(ctx):
     if ctx.tier == "thorough" and not ctx.replay:
         g = os.path.join(common.VERIF, "coq", GROUP)
         rc, out = common.sh(["coqchk", "-silent", "-o", "-Q", os.path.join(common.VERIF, "coq", "lib"), "FwdLib",
-                             "-Q", g, "G02", "G02.C02"], cwd=g, timeout=1500)
+                             "-Q", os.path.join(common.VERIF, "coq", "g16"), "G16", "-Q", g, "G02", "G02.C02"], cwd=g, timeout=1500)
         flat = " ".join(out.split())
         m = re.search(r"\* Axioms: (.*?) \* Constants", flat)
         coqchk = {"rc": rc, "axioms": m.group(1).strip() if m else None}
